@@ -208,15 +208,26 @@ def write(mods, r, features=()):
                     continue
                 out.append("  wire %s%s;" % ("[%d:%d] " % (hi, lo) if not (hi == 0 and lo == 0) else "", nn))
             comment()
+            deferred = []
             for ins in m.insts:
                 par = ""
+                defp = []
                 if ins.params:
                     par = "#(" + ", ".join(".%s(%s)" % kv for kv in ins.params.items()) + ") "
+                    if "defparam" in features and r.random() < 0.5:
+                        # the other documented spelling: defparam statements somewhere after the instance
+                        par = ""
+                        defp = ["  defparam %s.%s = %s;" % (ins.name, k_, v_) for k_, v_ in ins.params.items()]
                 if ins.positional is not None:
                     items = [fmt_expr(r, m, at) for at in ins.positional]
                 else:
                     items = [".%s(%s)" % (pn, fmt_expr(r, m, at)) for pn, at in ins.conns.items()]
                 out.append("  %s%s %s%s (%s);" % (fmt_attrs(ins.attrs), ins.ref, par, ins.name, ", ".join(items)))
+                if defp and r.random() < 0.5:
+                    deferred += defp
+                else:
+                    out += defp
+            out += deferred
             for lhs, rhs in m.assigns:
                 out.append("  assign %s = %s;" % (fmt_expr(r, m, lhs), fmt_expr(r, m, rhs)))
         out.append("endmodule")
